@@ -267,7 +267,7 @@ def run(tier, seed, replay=None):
         cases = [f"show_dir (run_history save_prog default_flags (mkDir (Some (Complete {c0}%nat)) None None) "
                  f"{c0}%nat {C.coq_list(ks, C.natlit)})" for ks in distinct]
         res = C.run_cases(PID, "From Coq Require Import List ZArith. Import ListNotations.\n"
-                               "From TT Require Import Fs G_save.\nOpen Scope nat_scope.", cases, shard=4000)
+                               "From TT Require Import Fs G_save.\nOpen Scope nat_scope.", cases, shard=4000, rtype="Z")
         model = dict(zip(distinct, res))
     except RuntimeError as e:
         if proved:
